@@ -16,8 +16,8 @@ def workdir():
     """Per-process scratch directory (run-time only, removed at exit)."""
     pid = os.getpid()
     if pid not in _WORKDIR:
-        base = '/dev/shm' if os.path.isdir('/dev/shm') and os.access('/dev/shm', os.W_OK) \
-            else None
+        base = os.environ.get('VERIF_RUN_TMP') or (
+            '/dev/shm' if os.path.isdir('/dev/shm') and os.access('/dev/shm', os.W_OK) else None)
         d = tempfile.mkdtemp(prefix='mpverif-%d-' % pid, dir=base)
         _WORKDIR.clear()
         _WORKDIR[pid] = d
